@@ -50,7 +50,7 @@ func runWC(casesPath, tracePath string, reps int) {
 	defer vh.Sink(nil)
 	vhost, err := router.NewVirtualHostImpl(&v2.VirtualHost{Name: "vh", Domains: []string{"*"}})
 	vh.Must(err, "virtual host")
-	n := 0
+	n, ncase := 0, 0
 	err = vh.ReadCases(casesPath, func(raw json.RawMessage) error {
 		var c wcCase
 		if err := json.Unmarshal(raw, &c); err != nil {
@@ -61,26 +61,48 @@ func runWC(casesPath, tracePath string, reps int) {
 			names = append(names, k)
 		}
 		sort.Strings(names)
+		ncase++
+		if ncase%2 == 0 { // storage order of the configuration: ascending / descending names in turn
+			for i, j := 0, len(names)-1; i < j; i, j = i+1, j-1 {
+				names[i], names[j] = names[j], names[i]
+			}
+		}
 		r := &v2.Router{}
 		for _, k := range names {
 			r.Route.WeightedClusters = append(r.Route.WeightedClusters, v2.WeightedCluster{
 				Cluster: v2.ClusterWeight{ClusterWeightConfig: v2.ClusterWeightConfig{Name: k, Weight: c.W[k]}}})
 		}
-		base, err := router.NewRouteRuleImplBase(vhost, r)
-		if err != nil {
-			return err
+		listOf := func() []map[string]interface{} {
+			out := []map[string]interface{}{}
+			for _, wc := range r.Route.WeightedClusters {
+				out = append(out, map[string]interface{}{"name": wc.Cluster.Name, "weight": wc.Cluster.Weight})
+			}
+			return out
 		}
-		src := &drawSource{}
-		base.VerifSetRand(rand.New(src))
-		cur = base
-		tr.Emit(vh.Ev{"ev": "cfg", "w": c.W})
-		// the range the code draws from is reported by the hook; the driver sweeps the configured total
-		for rep := 0; rep < reps; rep++ {
-			for d := 0; d < c.Total; d++ {
-				src.next = int64(d)
-				got := base.ClusterName(context.Background())
-				tr.Emit(vh.Ev{"ev": "ret", "c": got})
-				n++
+		// the same configuration object is built into a rule more than once (WeightedClusterBuild.tla): every rule
+		// honours the configured weights, the configuration is left as it was
+		for build := 1; build <= 2; build++ {
+			before := listOf()
+			base, err := router.NewRouteRuleImplBase(vhost, r)
+			if err != nil {
+				return err
+			}
+			src := &drawSource{}
+			base.VerifSetRand(rand.New(src))
+			cur = base
+			tr.Emit(vh.Ev{"ev": "cfg", "w": c.W, "build": build, "list": before, "after": listOf()})
+			// the range the code draws from is reported by the hook; the driver sweeps the configured total
+			nrep := reps
+			if build > 1 {
+				nrep = 1 + reps/8
+			}
+			for rep := 0; rep < nrep; rep++ {
+				for d := 0; d < c.Total; d++ {
+					src.next = int64(d)
+					got := base.ClusterName(context.Background())
+					tr.Emit(vh.Ev{"ev": "ret", "c": got})
+					n++
+				}
 			}
 		}
 		return nil
